@@ -1,4 +1,5 @@
-package main
+// Package c14q: quiescence detection shared by the C14 and C15 runners.
+package c14q
 
 import (
 	"bytes"
@@ -84,8 +85,8 @@ func qIsParked(g gInfo) bool {
 	return true
 }
 
-// quiesce waits until two consecutive snapshots are quiet.
-func quiesce(timeout time.Duration) error {
+// Quiesce waits until two consecutive snapshots are quiet.
+func Quiesce(timeout time.Duration) error {
 	deadline := time.Now().Add(timeout)
 	sleep := 10 * time.Microsecond
 	quietRuns := 0
